@@ -101,7 +101,7 @@ def _line(draw, zids):
 
 @st.composite
 def _case(draw):
-    d = draw(G.directory(n_pages=(2, 3), notes_per_page=(2, 4)))
+    d = draw(G.directory(n_pages=(2, 3), notes_per_page=(2, 4), dup_ids=draw(st.integers(0, 3)) == 0))
     zids = [it["zid"] for pg in d.values() for it in P.iter_items(pg)]
     return {"dir": d, "today": "2024-01-05", "ext": draw(st.sampled_from(["zo", "zo", "zoq"])),
             "lines": [draw(_line(zids)) for _ in range(6)]}
